@@ -1,5 +1,91 @@
+(* C02 — tampered encrypted traffic is never accepted as different data.
+   Statements only; proofs are `exact <lemma>` from Proofs/C01_proofs.v / Proofs/C02_proofs.v.
+   The model (Model/C01.v) is shared with C01; read_message reports, with every delivered
+   message, the authenticated event `authev` (MAC input and tag, or AEAD iv/aad/ciphertext). *)
 From PV Require Import Bytes C01 C01_proofs C02 C02_proofs.
 Open Scope Z_scope.
-Theorem C02_stub : True.
-Proof. exact stub2_true. Qed.
-Print Assumptions C02_stub.
+
+(* util.constant_time_bytes_eq, modelled literally (length test, OR of XORs), is equality *)
+Theorem C02_cteq : forall a b : list Z, constant_time_bytes_eq a b = true <-> a = b.
+Proof. exact cteq_iff. Qed.
+Print Assumptions C02_cteq.
+
+(* in every protected path a payload is produced (by `finish`) only after the tag comparison
+   returned true / AEAD decryption succeeded, on bytes that contain the receiver's current
+   sequence number (MAC modes) or are bound to its current IV (AEAD); truncated MACs are the
+   tag (`mac_tag` = digest[:mac_size]); the classic path needs mac_size > 0 *)
+Theorem C02_no_deliver_before_check :
+  forall P r buf p ev r' rest,
+    read_message P (list Z) ftake r buf = Done (p, ev, r') rest ->
+    match p_mode r with
+    | Plain => True
+    | Classic c k =>
+        0 < p_msz r ->
+        exists size packet tag m',
+          ev = EvMac (mac_input (p_seq r) size packet) tag /\
+          constant_time_bytes_eq (mac_tag P k (p_msz r) (mac_input (p_seq r) size packet)) tag = true /\
+          finish P r m' size packet ev = Ok (p, ev, r')
+    | Etm c k =>
+        exists size packet tag,
+          ev = EvMac (mac_input (p_seq r) size packet) tag /\
+          constant_time_bytes_eq (mac_tag P k (p_msz r) (mac_input (p_seq r) size packet)) tag = true /\
+          finish P r (Etm (snd (c_dec P c packet)) k) size (fst (c_dec P c packet)) ev = Ok (p, ev, r')
+    | Aead k iv =>
+        exists aad ct pt iv',
+          ev = EvAead iv aad ct /\ a_dec P k iv ct aad = Some pt /\ inc_iv iv = Ok iv' /\
+          finish P r (Aead k iv') (be_decode aad) pt ev = Ok (p, ev, r')
+    end.
+Proof. exact deliver_inv. Qed.
+Print Assumptions C02_no_deliver_before_check.
+
+(* the honest stream is accepted: every message of a session is delivered with a non-trivial
+   authenticated event (C01_roundtrip_message gives ev <> EvNone in protected modes) *)
+
+(* C02_prefix, full statement (NOT proved in full, see the two _partial theorems below):
+     forall T, bytes_ok T -> authentic (sender_log P r0 wire) accepted -> is_prefix delivered sent
+   where (delivered, accepted, fin, _, _) = read_many_flat P fuel r0 T, wire = concat of the
+   sender's packets for `sent` (fewer than 2^32 of them under one key), fin is FNeed or FErr _.
+   Proved: the single-step core for AEAD and encrypt-then-MAC: in a given receiver state the
+   authenticated event determines the delivered payload AND the next receiver state, so a stream
+   accepted with an event of the sender's log delivers the sender's message and leaves the
+   receiver keyed like the honest one.
+   Missing: (1) the induction over the stream, which needs that the events of the log are
+   pairwise distinct in their sequence-number / IV component (fewer than 2^32 packets per key;
+   IV counter below 2^64) to align an accepted event with the position in the sent list;
+   (2) the classic (MAC-then-encrypt) path, where the event holds the plaintext: the payload is
+   determined (C02_no_deliver_before_check) but the next cipher-context state is determined
+   only under an additional injectivity law for decryption. *)
+Theorem C02_prefix_aead_step_partial :
+  forall P r k iv T W p ev r' rest ph evh rh resth,
+    p_mode r = Aead k iv ->
+    read_message P (list Z) ftake r T = Done (p, ev, r') rest ->
+    read_message P (list Z) ftake r W = Done (ph, evh, rh) resth ->
+    ev = evh -> p = ph /\ r' = rh.
+Proof. exact aead_step. Qed.
+Print Assumptions C02_prefix_aead_step_partial.
+
+Theorem C02_prefix_etm_step_partial :
+  forall P r c k T W p ev r' rest ph evh rh resth,
+    p_mode r = Etm c k -> bytes_ok T = true -> bytes_ok W = true ->
+    read_message P (list Z) ftake r T = Done (p, ev, r') rest ->
+    read_message P (list Z) ftake r W = Done (ph, evh, rh) resth ->
+    ev = evh -> p = ph /\ r' = rh.
+Proof. exact etm_step. Qed.
+Print Assumptions C02_prefix_etm_step_partial.
+
+(* a tampered stream is read with the same result however it is fragmented (shared with C01) *)
+Theorem C02_fragmentation :
+  forall P fuel (r : pstate P) (s : list (list Z)), ne s ->
+    let '(ps, evs, fi, rf, sf) := read_many P (list (list Z)) stake fuel r s in
+    read_many P (list Z) ftake fuel r (concat s) = (ps, evs, fi, rf, concat sf).
+Proof. exact chunked_equals_flat. Qed.
+Print Assumptions C02_fragmentation.
+
+(* non-vacuity: with the toy primitives a flipped ciphertext byte is rejected (Mismatched MAC),
+   the untouched stream is delivered *)
+Example C02_toy_tamper :
+  let cfg := Cfg 2 8 8 5 [1;2;3;4;5;6;7;8] [9;9] 0 [] false None in
+  let w := concat (fst (fst (send_many (cfg_apply (init_state 0 true) cfg) [([7;1;2], [])]))) in
+  run_recv (0, true, cfg, [w]) = [3; 7; 1; 2; -1] /\
+  run_recv (0, true, cfg, [firstn 6 w ++ [Z.lxor (nth 6 w 0) 1] ++ skipn 7 w]) = [-2; 1].
+Proof. vm_compute. split; reflexivity. Qed.
